@@ -415,6 +415,34 @@ def check_override(spec, res, ctx):
                      'expected %r' % (override, name, strip_fn(got),
                                       strip_fn(want)), 'composer.py:__init__')
             return
+    check_override_then_merge(spec, res, desc, ov, override, port)
+
+
+def check_override_then_merge(spec, res, desc, ov, override, port):
+    """An override the composite already holds must also reach a process that
+    a later merge puts at the path it names."""
+    from vivarium.core.composer import Composite
+    p1, s1, f1, t1 = kit.make_part(desc, 0)
+    comp = Composite({'processes': p1, 'steps': s1, 'flow': f1, 'topology': t1,
+                      '_schema': override})
+    # the same parts again, as new instances under the same keys
+    p, s, f, t = kit.make_part(desc, 0)
+    base = {name: copy.deepcopy(proc.get_schema())
+            for name, proc in list(p.items()) + list(s.items())}
+    comp.merge(processes=p, topology=t, steps=s, flow=f)
+    for name, proc in list(p.items()) + list(s.items()):
+        want = copy.deepcopy(base[name])
+        if name == ov['proc']:
+            want[port][ov['var']]['_emit'] = ov['emit']
+            want[port][ov['var']]['_properties'] = {'mark': 1}
+        if not same_schema(proc.get_schema(), want):
+            res.fail('override.later_merge', 'a composite holding the override '
+                     '%r was merged with the process it names: the schema of '
+                     '%s is %r, expected %r' % (
+                         override, name, strip_fn(proc.get_schema()),
+                         strip_fn(want)), 'composer.py:merge')
+            return
+    res.label('override.then_merge')
 
 
 def strip_fn(x):
